@@ -259,6 +259,8 @@ class Engine:
         raise OutOfSubset(f"== on {sa} / {sb}")
 
     def _int(self, v: Val):
+        if isinstance(v.shape, OptS) and self.spec_mode:
+            v = v.d[1]
         if isinstance(v.shape, BoolS):
             return z3.If(v.d, 1, 0)
         if isinstance(v.shape, IntS):
@@ -266,6 +268,8 @@ class Engine:
         raise OutOfSubset(f"expected int, got {v.shape}")
 
     def _num(self, v: Val):
+        if isinstance(v.shape, OptS) and self.spec_mode:
+            v = v.d[1]
         if isinstance(v.shape, RealS):
             return v.d
         return z3.ToReal(self._int(v))
@@ -414,6 +418,12 @@ class Engine:
         if isinstance(op, ast.NotEq):
             return z3.Not(self.py_eq(a, b))
         # ordering
+        if isinstance(a.shape, OptS):
+            self.raise_side(st, "TypeError", a.d[0])
+            a = a.d[1]
+        if isinstance(b.shape, OptS):
+            self.raise_side(st, "TypeError", b.d[0])
+            b = b.d[1]
         if isinstance(a.shape, EnumS) and isinstance(b.shape, EnumS) and a.shape.key == b.shape.key:
             cls = self.live_class(a.shape.key)
             if "__lt__" in cls.__dict__ and isinstance(a.shape.value_shape, IntS):
@@ -507,6 +517,12 @@ class Engine:
                     raise OutOfSubset("binop on concrete objects")
                 return self.lift(fn(a.d, b.d))
         a, b = self.as_sym(a), self.as_sym(b)
+        if isinstance(a.shape, OptS):
+            self.raise_side(st, "TypeError", a.d[0])
+            a = a.d[1]
+        if isinstance(b.shape, OptS):
+            self.raise_side(st, "TypeError", b.d[0])
+            b = b.d[1]
         sa, sb = a.shape, b.shape
         fm = self.ctx.fm
         # list * int   ([0] * 5)
